@@ -220,7 +220,13 @@ where
         Ok(())
     }
 
-    async fn ensure_ready(&mut self, _mode: RadioMode) -> Result<(), RadioError> {
+    async fn ensure_ready(&mut self, mode: RadioMode) -> Result<(), RadioError> {
+        if mode == RadioMode::Sleep {
+            // LongRangeMode can only be written in sleep mode: select the LoRa modem (again) before the chip
+            // is woken, so that a reset sequence that failed half-way cannot leave it in FSK mode
+            let buf = [Register::RegOpMode.write_addr(), LoRaMode::Sleep.value()];
+            self.intf.write(&buf, true).await?;
+        }
         Ok(())
     }
 
